@@ -12,7 +12,8 @@ def scenarios(tier, seed):
     out = [os.path.join(eng_c01.SCEN, 'denver_demo.yaml')]
     n = 2 if tier == 'quick' else 8
     for k in range(n):
-        out.append(gen_scenario.write(os.path.join(WORK, 'scen', f'gen_{seed}_{k}'), seed * 1009 + k))
+        # step lengths other than SimulationState's default of 60 s: the configured value is what must reach the state
+        out.append(gen_scenario.write(os.path.join(WORK, 'scen', f'c15_{seed}_{k}'), seed * 1009 + k, delta=[30, 90, 45, 75, 20, 120, 15, 50][k % 8]))
     return out
 
 def splits_of(rng, n):
